@@ -120,3 +120,25 @@ contract(
     domain=False,
     props=["C05", "C04", "C14"],
 )
+
+
+# ---- assumed (trusted) contract of the lookup dunder: used by callers that walk a path through nested sets ---------------------
+# Not verified: the inherit branch builds a fresh Identifier with a resolution context (generator expressions, model_copy).  What
+# callers rely on: a lookup writes no field of the document, answers with the value of the first binding of that name when there
+# is one, raises KeyError on an empty set, and every set it hands out satisfies the representation invariant.
+contract(
+    target="nix_manipulator/expressions/set.py::AttributeSet.__getitem__",
+    params={"self": Ref("AttributeSet"), "key": Str},
+    returns=Ref("NixExpression"),
+    modifies=[],
+    ensures=["heap_unchanged()", "first_binding(self.values, key) is None or result is first_binding(self.values, key).value",
+             "result is None or result < alloc_at_entry()",
+             # something was found: the set is not empty (an empty set raises KeyError)
+             "len(self.values) > 0",
+             # representation invariant of every AttributeSet of the document (assumed)
+             "implies(isinstance(result, AttributeSet), result.values is not result.attrpath_order and distinct_elems(result.values) and distinct_elems(result.attrpath_order))"],
+    exsures={"KeyError": ["first_binding(self.values, key) is None", "heap_unchanged()"]},
+    trusted=True,  # listed under assumptions in the evidence
+    domain=False,
+    props=["C05", "C08", "C14"],
+)
